@@ -1,11 +1,11 @@
 (* C12Theorems.v — the property theorems of C12 and nothing else. *)
 From V.lib Require Import Base.
-From V.c12 Require Import C12Model C12Spec C12PartProofs.
+From V.c12 Require Import C12Model C12Spec C12Sidx C12PartProofs C12EncProofs C12SidxProofs.
 
-(* Every accepted top-level sequence: the children of the fragments of the segments, flattened in
-   order, are exactly the emsg/moof/mdat boxes of the input in order (minus the mdat boxes of a
-   progressive prefix) — each moof and each mdat lands in exactly one fragment of exactly one
-   segment, nothing is duplicated, dropped or reordered. *)
+(* Every accepted top-level sequence, every flag combination: the children of the fragments of the
+   segments, flattened in order, are exactly the emsg/moof/mdat boxes of the input in order (minus
+   the mdat boxes of a progressive prefix) — each moof and each mdat lands in exactly one fragment
+   of exactly one segment, nothing is duplicated, dropped or reordered. *)
 Theorem C12_partition : forall (o : opts) (bs : list topbox) (f : file),
   assemble o bs = Ok f ->
   concat (map fr_children (concat (map sg_frags (f_segs f)))) = frag_media false bs.
@@ -20,3 +20,84 @@ Theorem C12_partition_fragmented : forall (o : opts) (bs : list topbox) (f : fil
   concat (map fr_children (concat (map sg_frags (f_segs f)))) = filter is_media bs.
 Proof. exact partition_fragmented_flat. Qed.
 Print Assumptions C12_partition_fragmented.
+
+(* Re-encoding in segment mode, when it succeeds, writes the init boxes, the top-level sidx boxes,
+   per segment styp / sidx boxes / the fragments' children, then mfra; the emsg/moof/mdat boxes
+   written are exactly the input's in order; and success means every fragment holds a moof and an
+   mdat.  (Byte identity of each written box with its input bytes is observed by the harness;
+   it is C01's statement, not proved here.) *)
+Theorem C12_segment_mode_encode : forall (o : opts) (bs : list topbox) (f : file) (out : list topbox),
+  assemble o bs = Ok f ->
+  encode_segment_mode f = Ok out ->
+  out = init_boxes f ++ map sx_box (f_sidxs f) ++ concat (map seg_boxes (f_segs f)) ++ opt_list (f_mfra f) /\
+  filter is_media out = frag_media false bs /\
+  Forall (fun s => Forall (fun fr => is_some (fr_moof fr) = true /\ is_some (fr_mdat fr) = true) (sg_frags s)) (f_segs f).
+Proof. exact segment_mode_encode. Qed.
+Print Assumptions C12_segment_mode_encode.
+
+(* After UpdateSidx (when it adds or refills an index) and segment-mode encoding: for every i, the
+   output splits into `before` ++ segments i.. ++ mfra where `before` has exactly
+   anchor + (sum of the first i referenced sizes) bytes — reference i starts at the first byte of
+   segment i and (i = number of segments) the references end where the media ends; durations are
+   the summed sample durations of the reference track (mod 2^32, the Go accumulator is uint32);
+   reference_ID / timescale are the reference track's.  Guard: every segment is smaller than 2^31
+   bytes (referenced_size is a 31 bit field).  Sizes are Size() values: that a box encodes to
+   Size() bytes is C02's statement. *)
+Theorem C12_sidx_tiles : forall (f : file) (add nz : bool) (newtag : N) (f' : file) (out : list topbox),
+  update_sidx f add nz newtag = Ok f' ->
+  (add = true \/ f_sidxs f <> []) ->
+  encode_segment_mode f' = Ok out ->
+  Forall (fun s => seg_size s < 2147483648) (f_segs f) ->
+  exists sx rest moov rt,
+    f_sidxs f' = sx :: rest /\ f_moov f = Some moov /\ find_reference_trak (b_traks moov) = Ok rt /\
+    let refs := b_refs (sx_box sx) in
+    let segs := f_segs f' in
+    length refs = length segs /\ segs = f_segs f /\ segs <> [] /\
+    (forall i, (i <= length segs)%nat ->
+       let before := init_boxes f' ++ map sx_box (f_sidxs f') ++ concat (map seg_boxes (firstn i segs)) in
+       out = before ++ concat (map seg_boxes (skipn i segs)) ++ opt_list (f_mfra f') /\
+       anchor_in_output f' sx + sumN (firstn i (map r_size refs)) = sizes_of before) /\
+    map r_dur refs = map (fun s => seg_ref_dur (k_id rt) s mod M32) segs /\
+    Forall (fun r => r_type r = 0) refs /\
+    b_refid (sx_box sx) = k_id rt /\ b_timescale (sx_box sx) = k_timescale rt.
+Proof. exact sidx_tiles. Qed.
+Print Assumptions C12_sidx_tiles.
+
+(* ---------------------------------------------------------------- the hypotheses are satisfiable *)
+(* ftyp moov styp moof mdat moof mdat styp moof mdat: two segments of 2 and 1 fragments, track 2 is video *)
+Definition bx (k : kind) (size : N) : topbox := mkBox k 0 size 8 0 [] false [] false [] [] 0 0 0 0.
+Definition ex_moov : topbox :=
+  mkBox KMoov 0 600 8 0 [] true [] false [] [mkTrak 1 1 1000 true; mkTrak 2 0 2000 true] 0 0 0 0.
+Definition ex_moof (base : N) (durs : list N) : topbox :=
+  mkBox KMoof 0 100 8 0 [] false [] false [mkTraf 1 base [[5; 5]] 0; mkTraf 2 base [durs] 7] [] 0 0 0 0.
+Definition ex_boxes : list topbox :=
+  number_from 0 [bx KFtyp 24; ex_moov; bx KStyp 24; ex_moof 0 [10; 20]; bx KMdat 50; ex_moof 30 [30]; bx KMdat 40;
+                 bx KStyp 24; ex_moof 60 [40; 2]; bx KMdat 60].
+
+Example C12_example_partition :
+  match assemble (mkOpts false false) ex_boxes with
+  | Ok f => map (fun s => map (fun fr => map b_tag (fr_children fr)) (sg_frags s)) (f_segs f)
+            = [[[3; 4]; [5; 6]]; [[8; 9]]]
+            /\ map sg_start (f_segs f) = [624; 938]
+  | _ => False
+  end.
+Proof. vm_compute. split; reflexivity. Qed.
+
+Example C12_example_tiles :
+  match assemble (mkOpts false false) ex_boxes with
+  | Ok f =>
+      match update_sidx f true true 10 with
+      | Ok f' =>
+          match f_sidxs f', encode_segment_mode f' with
+          | [sx], Ok out =>
+              map (fun r => (r_size r, r_dur r)) (b_refs (sx_box sx)) = [(314, 60); (184, 42)] /\
+              b_ept (sx_box sx) = 7 /\ b_refid (sx_box sx) = 2 /\
+              anchor_in_output f' sx = 688 /\ map b_tag out = [0; 1; 10; 2; 3; 4; 5; 6; 7; 8; 9] /\
+              sizes_of out = 688 + 314 + 184
+          | _, _ => False
+          end
+      | _ => False
+      end
+  | _ => False
+  end.
+Proof. vm_compute. repeat split; reflexivity. Qed.
